@@ -45,6 +45,7 @@ class Job:
     extra_gi: list = field(default_factory=list)  # extra goto-instrument flags
     expect_statics: dict = field(default_factory=dict)  # {function: [names]}: the function's non-const statics must be exactly these (else extraction break)
     pre_unwindset: list = field(default_factory=list)  # loops fully unwound (with unwinding assertions) BEFORE contract instrumentation, "fn.N:k"
+    guard: bool = True                            # compile the repository sources with -DSPQLIOS_VERIF (ghost hooks on)
     no_dfcc: bool = False                         # plain harness proof (no contracts) e.g. lemma-style S2
     kind: str = "cbmc"                            # cbmc | native (S5/S7 tools)
     native_cmd: Optional[list] = None
@@ -318,13 +319,13 @@ def reset_source_cache():
     os.makedirs(SRC_CACHE, exist_ok=True)
 
 
-def compile_source(s, avx, strict, export_static):
+def compile_source(s, avx, strict, export_static, guard=True):
     """goto-cc -c of one UNMODIFIED repository file; shared by the jobs of one check invocation (the harness-only
     -D defines of a job are not passed to repository sources)"""
     src = os.path.join(SRC, s)
     if not os.path.exists(src):
         raise Undecided("extraction break: source %s missing" % s)
-    key = "%s.%d%d%d" % (s.replace("/", "__"), int(avx), int(strict), int(export_static))
+    key = "%s.%d%d%d%s" % (s.replace("/", "__"), int(avx), int(strict), int(export_static), "" if guard else "g0")
     out = os.path.join(SRC_CACHE, key + ".gb")
     with _src_lock:
         lk = _src_locks.setdefault(key, threading.Lock())
@@ -340,7 +341,7 @@ def compile_source(s, avx, strict, export_static):
             os.makedirs(os.path.join(SRC_CACHE, key + ".d"), exist_ok=True)
             src = os.path.join(SRC_CACHE, key + ".d", os.path.basename(s))
             open(src, "w").write(text2)
-        cmd = ["goto-cc", "-c", src, "-o", out + ".tmp", "-DNDEBUG", "-D" + GUARD, "-I" + SRC, "-I" + os.path.dirname(os.path.join(SRC, s))]
+        cmd = ["goto-cc", "-c", src, "-o", out + ".tmp", "-DNDEBUG"] + (["-D" + GUARD] if guard else []) + ["-I" + SRC, "-I" + os.path.dirname(os.path.join(SRC, s))]
         if avx:
             cmd += ["-isystem", os.path.join(VERIF, "shim"), "-mavx2", "-mfma"]
             if strict:
@@ -378,7 +379,7 @@ def compile_job(job, wd):
     for k, v in job.defines.items():
         defs.append("-D%s=%s" % (k, v) if v is not None and v != "" else "-D%s" % k)
     inc = ["-I" + SRC, "-I" + os.path.join(VERIF, "contracts")]
-    gbs = [compile_source(s, job.avx or "avx" in s or "fma" in s, job.strict_shim, job.export_static) for s in job.sources]
+    gbs = [compile_source(s, job.avx or "avx" in s or "fma" in s, job.strict_shim, job.export_static, job.guard) for s in job.sources]
     if job.avx or any(("avx" in s or "fma" in s) for s in job.sources):
         gbs.append(compile_shim(job.strict_shim, job.defines.get("SHIM_WIDE_BITS")))
     gbs.append(os.path.join(VERIF, "shim", "cpu_supports.c"))
@@ -593,6 +594,9 @@ def check_statics(job, gb):
             raise Undecided("extraction break: function-local statics of %s are %s, the harness aliases %s" % (fn, sorted(found.get(fn, set())), sorted(names)))
 
 
+_hdr_tags = {}
+
+
 def run_job(job, keep=False):
     t0 = time.time()
     wd = os.path.join(BUILD, re.sub(r"[^A-Za-z0-9_.\-]", "_", job.name))
@@ -624,6 +628,11 @@ def run_job(job, keep=False):
             tprops = []
             if fil and os.path.abspath(fil) == os.path.abspath(hpath) and line in tags:
                 tag, tprops = tags[line]
+            elif fil and os.path.abspath(fil).startswith(os.path.join(VERIF, "contracts") + os.sep):
+                # contract written in a header included by the harness file: its tags live in that header
+                ht = _hdr_tags.setdefault(os.path.abspath(fil), None) or _hdr_tags.__setitem__(os.path.abspath(fil), tags_of(os.path.abspath(fil))) or _hdr_tags[os.path.abspath(fil)]
+                if line in ht:
+                    tag, tprops = ht[line]
             ob = {"name": name, "desc": desc, "status": r["status"], "cls": cls, "line": line,
                   "file": fil, "tag": tag, "props": tprops, "job": job.name, "shape": job.shape}
             if "VACUITY_CANARY" in desc:
